@@ -33,6 +33,7 @@ class _NdSub(np.ndarray):
 
 
 def run_history(desc):
+    key_obj = {}
     U = desc["universe"]
     td = desc["target"]
     mode = td["mode"]
@@ -55,6 +56,11 @@ def run_history(desc):
     for si, step in enumerate(desc["steps"]):
         sel, syntax, rhs = step["sel"], step["syntax"], step["rhs"]
         key = make_key(U, sel, syntax)
+        if desc.get("same_key_object") and isinstance(key, dict):
+            # one selection dict kept across the assignments and updated in place
+            key_obj.clear()
+            key_obj.update(key)
+            key = key_obj
         rl, ritems, orig = region(U, tletters, sel)
         singles = {l: s["items"][0] for l, s in sel.items() if s["kind"] == "single"}
         sel_items = {orig[l]: ritems[l] for l in rl}
@@ -267,7 +273,7 @@ def histories(draw, mode, max_steps=5, max_dims=4, max_len=3):
         steps.append({"sel": sel, "syntax": syntax, "rhs": rhs})
     if not steps:
         steps.append({"sel": {}, "syntax": "ellipsis", "rhs": {"kind": "array", "y": {"letters": list(tl), "mode": mode, "tag": "y"}}})
-    return {"universe": U, "target": target, "steps": steps}
+    return {"universe": U, "target": target, "steps": steps, "same_key_object": draw(st.booleans())}
 
 
 class History(Facet):
